@@ -159,8 +159,12 @@ def _direct_case(rng, counters):
     r = rng.random()
     if r < 0.3:
         opts["eigenvalue_atol"] = 1e-10
+    # the `nonhermitian` keyword only decides whether the left-implicit orientation is prepared as well: with the default
+    # (False) the right-implicit equations must still be solved for a non-Hermitian h_0
+    flag_nh = (not c["hermitian"]) and bool(rng.random() < 0.6)
+    counters["direct_nonhermitian_h0_default_flag"] += int((not c["hermitian"]) and not flag_nh)
     try:
-        solve = bd.solve_sylvester_direct(h0, list(c["expl"]), nonhermitian=not c["hermitian"], **opts)
+        solve = bd.solve_sylvester_direct(h0, list(c["expl"]), nonhermitian=flag_nh, **opts)
     except Exception as e:  # noqa: BLE001
         raise Violation(f"solve_sylvester_direct setup raised {type(e).__name__}: {e}")
     nb = len(c["sizes"])
@@ -173,7 +177,7 @@ def _direct_case(rng, counters):
         try:
             solve(Y, (a, nb, 1))
             n_calls += 1
-            if not c["hermitian"]:
+            if flag_nh:
                 Y2 = rng.normal(size=(N, c["sizes"][a])) + (1j * rng.normal(size=(N, c["sizes"][a])) if cplx_rhs else 0)
                 solve(Y2, (nb, a, 1))
                 n_calls += 1
